@@ -209,6 +209,14 @@ inline void run_tunnel(Tape &t, Mode mode, Run &R)
 		int srv_idx = s.srv->idx;
 		if (dir == 1) R.fn.filter = [srv_idx](const sim::Datagram &dg) { return dg.from_inst != srv_idx; };
 		if (dir == 2) R.fn.filter = [srv_idx](const sim::Datagram &dg) { return dg.from_inst == srv_idx; };
+		if (R.relay) {
+			// with a relay every round trip has four hops: faults are applied on the client <-> relay hops only and duplication
+			// is capped, otherwise every duplicate is duplicated again on each hop (tens of thousands of datagrams per case)
+			R.fn.p_dup = std::min<uint32_t>(R.fn.p_dup, 300);
+			sim::Addr back = R.relay->back, server = R.relay->server;
+			auto inner = R.fn.filter;
+			R.fn.filter = [back, server, inner](const sim::Datagram &dg) { if (dg.src == back || dg.dst == back) return false; return inner ? inner(dg) : true; };
+		}
 	}
 	// run the offers
 	size_t next = 0;
